@@ -966,6 +966,23 @@ def f_spec_components_national(a):
         return "BUILT-BUT-NATIONALLY-INVALID " + str(bb) + " " + type(e).__name__
 
 
+def f_spec_lookup_empty_code(a):
+    """an entry without a bank code cannot be looked up by bank code: the empty code names no bank (C17: a bank code is
+    empty - absent - or fits the field), so both lookups refuse it with the library's own error"""
+    cc = dec(a[0])
+    out = []
+    for name, f in (("from_bank_code", lambda: str(BIC.from_bank_code(cc, ""))),
+                    ("candidates_from_bank_code", lambda: [str(x) for x in BIC.candidates_from_bank_code(cc, "")])):
+        try:
+            r = f()
+            out.append(f"{name} FOUND {r!r}"[:120])
+        except exceptions.InvalidBankCode:
+            pass
+        except Exception as e:  # noqa: BLE001
+            out.append(f"{name} RAISED {type(e).__name__}")
+    return "OK" if not out else "; ".join(out)
+
+
 def f_touch_all(a):
     """read every public attribute of an (unvalidated) object - properties must be read-only in effect; result: their
     values, so that the call can be compared with itself in other circumstances"""
